@@ -1,0 +1,80 @@
+//go:build verif
+
+package webp
+
+import (
+	"bytes"
+	"image"
+	"image/color"
+
+	"github.com/deepteams/webp/sharpyuv"
+)
+
+// Verification hooks for the pixel import paths (property C19). Compiled only
+// with the build tag "verif"; thin wrappers of unexported functions, no
+// behaviour of their own.
+
+// VerifImportARGB returns the non-premultiplied ARGB words (A<<24|R<<16|G<<8|B,
+// row-major) that encodeLossless (streaming == false) or
+// encodeLosslessToWriter (streaming == true) imported from img. The import
+// loops are inlined in those functions, so they are observed through the exact
+// lossless round trip: encode with Exact (no transparent-area cleanup), decode
+// the file with the package's own Decode.
+func VerifImportARGB(img image.Image, streaming bool) ([]uint32, error) {
+	opts := &EncoderOptions{Lossless: true, Exact: true, Quality: 50, Method: 1}
+	var buf bytes.Buffer
+	if streaming {
+		if err := encodeLosslessToWriter(&buf, img, opts); err != nil {
+			return nil, err
+		}
+	} else {
+		bs, fourcc, err := encodeLossless(img, opts)
+		if err != nil {
+			return nil, err
+		}
+		b := img.Bounds()
+		if err := writeRIFF(&buf, fourcc, bs, nil, b.Dx(), b.Dy(), opts); err != nil {
+			return nil, err
+		}
+	}
+	dec, err := Decode(bytes.NewReader(buf.Bytes()))
+	if err != nil {
+		return nil, err
+	}
+	db := dec.Bounds()
+	w, h := db.Dx(), db.Dy()
+	out := make([]uint32, w*h)
+	for y := 0; y < h; y++ {
+		for x := 0; x < w; x++ {
+			c := color.NRGBAModel.Convert(dec.At(db.Min.X+x, db.Min.Y+y)).(color.NRGBA)
+			out[y*w+x] = uint32(c.A)<<24 | uint32(c.R)<<16 | uint32(c.G)<<8 | uint32(c.B)
+		}
+	}
+	return out, nil
+}
+
+// VerifImportHasAlpha is imageHasAlpha.
+func VerifImportHasAlpha(img image.Image) bool { return imageHasAlpha(img) }
+
+// VerifImportExtractAlpha is extractAlphaWith(img, true).
+func VerifImportExtractAlpha(img image.Image) []byte { return extractAlphaWith(img, true) }
+
+// VerifImportCleanup is cleanupTransparentAreaLossyWith(img, true); nil when
+// the result is not an *image.NRGBA.
+func VerifImportCleanup(img image.Image) *image.NRGBA {
+	n, _ := cleanupTransparentAreaLossyWith(img, true).(*image.NRGBA)
+	return n
+}
+
+// VerifImportSharpYUV is sharpYUVConvert.
+func VerifImportSharpYUV(img image.Image) (*image.YCbCr, error) { return sharpYUVConvert(img) }
+
+// VerifImportSharpFromRGB is the tail of sharpYUVConvert: the packed RGB
+// buffer (w*h*3 bytes, stride w*3) handed to sharpyuv.Convert.
+func VerifImportSharpFromRGB(rgb []byte, w, h int) (*image.YCbCr, error) {
+	yuv := image.NewYCbCr(image.Rect(0, 0, w, h), image.YCbCrSubsampleRatio420)
+	if err := sharpyuv.Convert(rgb, w, h, w*3, yuv, sharpyuv.DefaultOptions()); err != nil {
+		return nil, err
+	}
+	return yuv, nil
+}
